@@ -136,6 +136,8 @@ pub struct Live {
     pub exp: Vec<u8>,
     /// layout to use for deallocate/grow/shrink, if the block may be handed to those
     pub layout: Option<(usize, usize)>,
+    /// 1 = allocated and kept by a fallible initialiser whose call failed (C11 canary)
+    pub tag: u8,
 }
 
 #[derive(Clone, Copy, Debug, PartialEq, Eq)]
@@ -162,7 +164,9 @@ pub struct Observed {
 }
 
 pub struct Sim<const M: usize> {
-    pub bump: ManuallyDrop<Bump<M>>,
+    /// boxed so that `&mut Sim` never retags the arena itself (workloads keep `&Bump` inside
+    /// arena-backed collections while the engine runs ops)
+    pub bump: ManuallyDrop<Box<Bump<M>>>,
     pub alive: bool,
     pub rng: Rng,
     /// ledger: blocks held, oldest first
@@ -194,6 +198,8 @@ pub struct Sim<const M: usize> {
     pub limit_mode: u8,
     /// twin runs: force every op to its fallible (true) or infallible (false) flavour
     pub force_fallible: Option<bool>,
+    /// behaviour of the initialiser of slice try-fill ops: 0 nothing, 1 allocate+keep, 2 allocate+release
+    pub slice_inner: u8,
 }
 
 pub fn round_up(n: usize, a: usize) -> usize {
@@ -227,7 +233,7 @@ impl<const M: usize> Sim<M> {
     pub fn new(seed: u64, rep: &mut Report, cap: Option<usize>, fallible_ctor: bool) -> Option<Sim<M>> {
         let k = Self::measure_k(rep);
         let mut s = Sim {
-            bump: ManuallyDrop::new(Bump::<M>::with_min_align()),
+            bump: ManuallyDrop::new(Box::new(Bump::<M>::with_min_align())),
             alive: true,
             rng: Rng::new(seed),
             chunks: Vec::new(),
@@ -253,6 +259,7 @@ impl<const M: usize> Sim<M> {
             released: 0,
             limit_mode: 0,
             force_fallible: None,
+            slice_inner: 0,
         };
         if let Some(c) = cap {
             if !s.reconstruct(rep, Some(c), fallible_ctor) {
@@ -279,7 +286,7 @@ impl<const M: usize> Sim<M> {
         let ev = halloc::op_end();
         match r {
             Ok(Ok(b)) => {
-                self.bump = ManuallyDrop::new(b);
+                self.bump = ManuallyDrop::new(Box::new(b));
                 self.alive = true;
                 self.limit = None;
                 self.saw_reset = false;
@@ -321,7 +328,7 @@ impl<const M: usize> Sim<M> {
     }
 
     fn fresh_unmonitored(&mut self) {
-        self.bump = ManuallyDrop::new(Bump::<M>::with_min_align());
+        self.bump = ManuallyDrop::new(Box::new(Bump::<M>::with_min_align()));
         self.alive = true;
         self.limit = None;
         self.chunks.clear();
@@ -587,6 +594,9 @@ impl<const M: usize> Sim<M> {
                 }
             };
             if let Some((i, got)) = bad {
+                if lv.tag == 1 {
+                    rep.violate("C11", "C11/block-kept-by-failed-initialiser-changed", format!("block id {} byte {} is {:#x} expected {:#x} ({})", lv.id, i, got, lv.exp[i], self.cur));
+                }
                 rep.violate(
                     "C02",
                     format!("C02/live-block-changed/after-{}", self.cur.split('(').next().unwrap_or("")),
@@ -665,6 +675,9 @@ impl<const M: usize> Sim<M> {
         }
         if addr % align != 0 {
             rep.violate("C04", format!("C04/misaligned-to-request/{}{}", what, if self.chunks.is_empty() { "/chunkless" } else { "" }), format!("{:#x} % {} = {} (M={}, size {}) ({})", addr, align, addr % align, M, size, self.cur));
+            if matches!(what, "allocate" | "grow" | "grow_zeroed" | "shrink") {
+                rep.violate("C12", format!("C12/{}/returned-block-misaligned-for-new-layout", what), format!("{:#x} % {} = {} (M={}, size {}) ({})", addr, align, addr % align, M, size, self.cur));
+            }
         }
         if (addr - ext_off) % M != 0 {
             rep.violate(
@@ -696,20 +709,23 @@ impl<const M: usize> Sim<M> {
             return None;
         }
         // disjoint from live blocks
-        let lo_nb = self.live.range(..=addr).next_back().map(|(a, l)| (*a, l.size, l.id));
-        let hi_nb = self.live.range(addr..).next().map(|(a, l)| (*a, l.size, l.id));
+        let lo_nb = self.live.range(..=addr).next_back().map(|(a, l)| (*a, l.size, l.id, l.tag));
+        let hi_nb = self.live.range(addr..).next().map(|(a, l)| (*a, l.size, l.id, l.tag));
         let mut overlap = None;
-        if let Some((a, s, i)) = lo_nb {
+        if let Some((a, s, i, t)) = lo_nb {
             if a + s > addr {
-                overlap = Some((a, s, i));
+                overlap = Some((a, s, i, t));
             }
         }
-        if let Some((a, s, i)) = hi_nb {
+        if let Some((a, s, i, t)) = hi_nb {
             if a < end {
-                overlap = Some((a, s, i));
+                overlap = Some((a, s, i, t));
             }
         }
-        if let Some((a, s, i)) = overlap {
+        if let Some((a, s, i, t)) = overlap {
+            if t == 1 {
+                rep.violate("C11", "C11/block-kept-by-failed-initialiser-handed-out-again", format!("new [{:#x},{:#x}) overlaps kept id {} [{:#x},{:#x}) ({})", addr, end, i, a, a + s, self.cur));
+            }
             rep.violate("C01", format!("C01/overlaps-live-block/{}", what), format!("new [{:#x},{:#x}) overlaps live id {} [{:#x},{:#x}) ({})", addr, end, i, a, a + s, self.cur));
             return None;
         }
@@ -720,7 +736,7 @@ impl<const M: usize> Sim<M> {
             let off = self.chunks.get(ci).map(|c| addr - c.base).unwrap_or(usize::MAX);
             self.tr(&[77, ci as u64, off as u64, size as u64]);
         }
-        self.live.insert(addr, Live { id, ptr, size, align, extent, ext_off, exp, layout });
+        self.live.insert(addr, Live { id, ptr, size, align, extent, ext_off, exp, layout, tag: 0 });
         Some(id)
     }
 
